@@ -6,12 +6,55 @@ such conversions as `lossy_scalar` events; a rule lists the parameters whose exa
 bounds) and reports every event that touches one of them.  What is decided is the conversion on the way, not the size of the rounding."""
 
 
+from .interp import Unsupported as _Unsupported
+from .report import AnalysisError as _AE, Finding as _Finding
+
+
 def lossy(results, names):
     out = set()
     for r in results:
         if r.get("raises"):
             continue
         for e in r["events"]:
-            if e["kind"] == "lossy_scalar" and str(e["value"]) in names:
+            if e["kind"] == "lossy_scalar" and (names is None or str(e["value"]) in names):
                 out.add(f"{e['how']} applied to {e['value']}")
     return sorted(out)
+
+
+def closed_form_precision_rule(ctx, run, rule, fnames, what):
+    """No Python float (a parameter given as a float, or a constant such as 2*pi) is packed into a default-dtype tensor on the way into these
+    closed forms: with float64 inputs such a value is rounded to float32 first and every result built on it is off by ~1e-8 relative."""
+    from . import world as W
+    prog = ctx.prog
+    from .interp import Interp
+    interp = Interp(prog, max_depth=20)
+    F = "pfhedge.nn.functional."
+    for k_ in ("ncdf", "npdf"):  # read the helpers' own bodies (their summaries hide the constants they are built from)
+        interp.intrinsics.pop(F + k_, None)
+    for fname in fnames:
+        fi = prog.functions.get(F + fname)
+        if fi is None:
+            raise _AE(f"anchor vanished: {F + fname}")
+        kw = {}
+        for a_ in fi.node.args.args:
+            n_ = a_.arg
+            if n_ in ("input", "log_moneyness", "max_log_moneyness", "input1", "input2"):
+                kw[n_] = W.tensor(n_)
+            elif n_ in ("time_to_maturity", "volatility", "strike", "dt"):
+                import ast as _ast
+                ann = _ast.unparse(a_.annotation) if a_.annotation is not None else ""
+                # probe the float form only where the signature admits a float (TensorOrScalar / float / Union[..., float])
+                kw[n_] = W.fl(n_) if ("Scalar" in ann or "float" in ann) else W.tensor(n_)
+            elif n_ == "call":
+                kw[n_] = True
+        try:
+            res = [r for r in interp.explore(fi, [], kw, max_paths=60) if not r["raises"]]
+        except _Unsupported as ex:
+            raise _AE(f"{fname}: {ex}")
+        if not res:
+            raise _AE(f"{fname}: no analysable path with float parameters")
+        bad = lossy(res, None)
+        run.oblige(rule, f"{fname}: {what}", not bad, "; ".join(bad) or "no Python float is rounded to the default dtype")
+        if bad:
+            run.fail(_Finding(rule, fi.qualname, "; ".join(bad)[:300], "a Python float is rounded to float32 before it enters float64 arithmetic: the result loses half its digits",
+                             file=str(prog.modules[fi.module].path), line=fi.node.lineno))
